@@ -36,7 +36,17 @@ func Normalize(stmt Statement, bindVars map[string]*querypb.BindVariable, prefix
 	_ = Walk(nz.WalkStatement, stmt)
 }
 
+// Redact is Normalize for texts that are shown to people (logs): every literal of the statement is
+// replaced, whatever its spelling (X'..', 0x.., b'..', E'..') and whether or not it fits a numeric type.
+// Normalize keeps those in place because its bind variables are meant to be sent to a database.
+func Redact(stmt Statement, bindVars map[string]*querypb.BindVariable, prefix string) {
+	nz := newNormalizer(stmt, bindVars, prefix)
+	nz.redact = true
+	_ = Walk(nz.WalkStatement, stmt)
+}
+
 type normalizer struct {
+	redact   bool
 	stmt     Statement
 	bindVars map[string]*querypb.BindVariable
 	prefix   string
@@ -182,11 +192,21 @@ func (nz *normalizer) sqlToBindvar(node SQLNode) *querypb.BindVariable {
 			v, err = sqltypes.NewValue(sqltypes.Int64, node.Val)
 		case FloatVal:
 			v, err = sqltypes.NewValue(sqltypes.Float64, node.Val)
+		case HexNum, HexVal, BitVal, PgEscapeString:
+			if !nz.redact {
+				return nil
+			}
+			v, err = sqltypes.NewValue(sqltypes.VarBinary, node.Val)
 		default:
 			return nil
 		}
 		if err != nil {
-			return nil
+			if !nz.redact {
+				return nil
+			}
+			// a number that does not fit the numeric type (99999999999999999999, 1e999, 0899) is still
+			// a value taken from the statement: hide it as an opaque value
+			v = sqltypes.MakeTrusted(sqltypes.VarBinary, node.Val)
 		}
 		return sqltypes.ValueBindVariable(v)
 	}
